@@ -1082,6 +1082,32 @@ class Interp:
             else:
                 self.ev(c, cx, "r")
 
+    def local_lambda(self, a, cx):
+        """the LambdaExpr a thread argument denotes when it is a local variable initialised with a lambda (possibly through
+        std::move / std::forward / a copy or move construction of the closure object); None otherwise"""
+        for _ in range(8):
+            a = self.strip(a)
+            k = a.get("kind")
+            if k == "LambdaExpr":
+                return a
+            if k in ("CXXConstructExpr", "CXXTemporaryObjectExpr") and len(a.get("inner", [])) == 1:
+                a = a["inner"][0]          # copy / move construction of the closure type
+                continue
+            if k == "CallExpr" and len(a.get("inner", [])) == 2:
+                callee = self.strip(a["inner"][0])
+                name = callee.get("referencedDecl", {}).get("name") if callee.get("kind") == "DeclRefExpr" else None
+                if name in ("move", "forward"):
+                    a = a["inner"][1]
+                    continue
+                return None
+            if k == "DeclRefExpr":
+                lv = cx.env.get(a.get("referencedDecl", {}).get("id"))
+                if lv is not None and lv.lam is not None:
+                    return lv.lam[0]
+                return None
+            return None
+        return None
+
     def construct(self, n, cx, obj):
         """constructor call; obj = the object under construction when known (new / base / local variable)"""
         t = desugared(n) or qt(n)
@@ -1094,6 +1120,12 @@ class Interp:
                 return self.spawn(lam[0], cx, n)
             if not args:
                 return
+            # a closure kept in a local variable first: `auto body = [..]{..}; std::thread(std::move(body))` / `std::thread(body)`
+            named = self.local_lambda(args[0], cx)
+            if named is not None:
+                for a in args[1:]:
+                    self.ev(a, cx, "r")
+                return self.spawn(named, cx, n)
             if len(args) == 1 and re.match(r"(std::)?thread\b", (desugared(self.strip(args[0])) or qt(self.strip(args[0]))).replace("const ", "")):
                 return self.ev(args[0], cx, "w")        # move construction from another std::thread
             self.unknown(n, "std::thread started with something that is not a lambda")
